@@ -131,11 +131,24 @@ func UnmarshalInputToOptions(input protoiface.UnmarshalInput) proto.UnmarshalOpt
 		AllowPartial:      true, // defaults to true as the required fields check is done after the unmarshalling
 		DiscardUnknown:    input.Flags&protoiface.UnmarshalDiscardUnknown != 0,
 		Resolver:          input.Resolver,
+		RecursionLimit:    nestedRecursionLimit(input.Depth),
 	}
+}
+
+// nestedRecursionLimit returns the recursion limit for the messages nested in a message that
+// was entered with the given remaining depth. A limit of zero means "use the default" to
+// proto.UnmarshalOptions, so an exhausted budget is passed on as a negative limit, which makes
+// any further nested message fail.
+func nestedRecursionLimit(depth int) int {
+	if depth <= 1 {
+		return -1
+	}
+	return depth - 1
 }
 
 var (
 	ErrInvalidLength        = fmt.Errorf("proto: negative length found during unmarshaling")
 	ErrIntOverflow          = fmt.Errorf("proto: integer overflow")
 	ErrUnexpectedEndOfGroup = fmt.Errorf("proto: unexpected end of group")
+	ErrRecursionDepth       = fmt.Errorf("proto: exceeded max recursion depth")
 )
